@@ -11,6 +11,8 @@ paths, _h = facts.ensure(("FULL", "XEN", "MIN"))
 out = {}
 for cfg, p in paths.items():
     j = json.load(open(p))
-    out[cfg] = sorted({strip_generics(b["id"]) for b in j["bodies"] if b["kind"] in ("Fn", "AssocFn")})
+    from rules import inline
+    out[cfg] = {"fns": sorted({strip_generics(b["id"]) for b in j["bodies"] if b["kind"] in ("Fn", "AssocFn")}),
+                "edges": sorted(inline.static_edges(j["bodies"]))}
 json.dump(out, open(os.path.join(VERIF, "rules", "tables", "known_fns.json"), "w"), indent=0)
-print({k: len(v) for k, v in out.items()})
+print({k: (len(v["fns"]), len(v["edges"])) for k, v in out.items()})
